@@ -448,6 +448,9 @@ class BuildMatchStream(Stream):
         {"cfg": mk_cfg(), "rules": [mk_rule(toks_of("/w/<string:s>/<path:p>"), "w")], "mounts": {}, "adapter": mk_adapter(), "endpoint": "w", "values": {"s": ["s", "cafe\u0301"], "p": ["s", "A\u030angstro\u0308m/\u1100\u1161/\u212b"]}, "extra": {}, "method": None, "fe": False},
         {"cfg": mk_cfg(), "rules": [mk_rule(toks_of("/home"), "home", dom=[["V", ["s", 1, None, None], "user"]])], "mounts": {}, "adapter": mk_adapter(sub=""), "endpoint": "home", "values": {"user": ["s", "Alice"]}, "extra": {}, "method": None, "fe": False},
         {"cfg": mk_cfg(), "rules": [mk_rule(toks_of("/home"), "home", dom=[["V", ["a", "Docs", "api"], "user"]])], "mounts": {"0": {"subdomain": True}}, "adapter": mk_adapter(sub="api"), "endpoint": "home", "values": {"user": ["s", "Docs"]}, "extra": {}, "method": None, "fe": True},
+        # defaults that cover a variable of the rule string, with percent escapes in their URL form (seeded change C04-f2)
+        {"cfg": mk_cfg(), "rules": [mk_rule(["/", ["L", "lang"], "/", ["V", ["a", "en", "zh tw", "caf\u00e9", "50%"], "code"], "/", ["L", "home"]], "home", defaults={"code": ["s", "zh tw"]})], "mounts": {}, "adapter": mk_adapter(script="/app"), "endpoint": "home", "values": {}, "extra": {}, "method": None, "fe": False},
+        {"cfg": mk_cfg(), "rules": [mk_rule(["/", ["L", "t"], "/", ["V", ["s", 1, None, None], "tag"]], "t", defaults={"tag": ["s", "50%"]})], "mounts": {}, "adapter": mk_adapter(), "endpoint": "t", "values": {"tag": ["s", "50%"]}, "extra": {"q": ["s", "1"]}, "method": None, "fe": True},
         # rule factories expanded by the model: EndpointPrefix(Submount(RuleTemplate(...))), a dropped merge_slashes=False
         {"cfg": mk_cfg(), "rules": [mk_rule(toks_of("/blog/entry/<slug>"), "blog/show")], "mounts": {},
          "factories": {"0": {"inner": mk_rule(toks_of("/$kind/<slug>"), "$ep", merge=False), "wraps": [["T", {"kind": "entry", "ep": "show"}], ["M", toks_of("/blog/")], ["E", "blog/"]]}},
@@ -517,6 +520,14 @@ class BuildMatchStream(Stream):
                             # the defaults rule carries an extra default-only argument
                             sib["defaults"][rng.choice(["lang", "fmt"])] = rng.choice([["s", "en"], ["i", 0]])
                         rules.append(sib)
+                elif vs and rng.random() < 0.15:
+                    # `defaults` covering a variable that also appears in the rule string: the compiled builder inlines
+                    # to_url(default) - with values whose URL form carries a percent escape (space, non-ASCII, %, ?, #)
+                    cand = [k for k in vs if r["toks"][k][1][0] == "a" or r["toks"][k][1] == ["s", 1, None, None]]
+                    if cand:
+                        k = rng.choice(cand)
+                        c = r["toks"][k][1]
+                        r["defaults"] = {r["toks"][k][2]: ["s", rng.choice(c[1:] if c[0] == "a" else ["zh tw", "caf\u00e9", "50%", "a?b", "x#y", "%41", "a b;c"])]}
             factories = {}
             for k in range(len(rules)):
                 if str(k) not in mounts and rng.random() < 0.15:
